@@ -12,10 +12,15 @@ META = {
     "text": "TLC enumerates every writer program of <=5 write_all calls with buffers of <=3 bytes against every schedule of an "
             "adversarial sink (all chunkings, Interrupted, Ok(0), Err at every call) and checks Prefix, ChunkFree (bytes, counter, "
             "offsets), ErrSurfaces (safety and liveness), Retry, NoSpurious and Later; seven mutant writers must each violate the "
-            "clause they break. Every enumerated schedule is replayed into Document/IncrementalDocument::save_to. For each seeded "
+            "clause they break, and the deviation 'result of write ignored in path X' (DevIgnoredWrite: single write, count "
+            "dropped) must be refuted for Accounted (the writer-side contract: every byte handed to the sink is accounted for), "
+            "Accounting, ChunkFree, Prefix, ErrSurfaces and Retry. Every enumerated schedule is replayed into Document/IncrementalDocument::save_to. For each seeded "
             "document x {table, xref stream} x {plain, incremental} an instrumented sink fails at EVERY byte offset of the complete "
-            "output x {Err, Ok(0)}, splits writes into 1,2,3,7,random<=16 byte chunks with and without Interrupted before every "
-            "n-th call, and random combinations; after each failed save the document is saved again to a healthy sink, loaded and "
+            "output x {Err, Ok(0), Interrupted, short write} (once each), splits writes into 1,2,3,7,13,random<=16 byte chunks "
+            "with and without Interrupted before every n-th call, and random combinations; every document carries literal "
+            "strings that need escaping (20..300 bytes: parentheses, backslashes, CR, LF) in the Info dictionary, the trailer, "
+            "the page, a stream dictionary, an array and the incremental update, and the check refuses to run (exit 2) unless "
+            "faults of every kind landed inside them; after each failed save the document is saved again to a healthy sink, loaded and "
             "compared. TLC judges every logged run: sink answers are bound from the log, the writer position is inferred with the "
             "write_all loop model, the declarative layer gives the verdict.",
     "note": "Trusted: TLC, the instrumented sink and the byte comparisons (prefix, equality, projection of loaded documents) done "
@@ -38,13 +43,19 @@ MUTANTS = {
     "intr_fatal": ([], ["Retry"]),
     "counter_persist": (["Later"], []),
 }
-DECLARATIVE = ["TypeOK", "Prefix", "ChunkFree", "ErrSurfaces", "NoSpurious", "Later", "Refines"]
+DECLARATIVE = ["TypeOK", "Accounting", "Prefix", "ChunkFree", "ErrSurfaces", "NoSpurious", "Later", "Refines"]
+# deviation "result of write ignored in path X" (DevIgnoredWrite): properties TLC must refute one by one, and
+# the ones that survive it (the counter still equals what the sink holds, so offsets stay consistent)
+DEV_REFUTED = [("inv", "Accounting"), ("prop", "Accounted"), ("inv", "ChunkFree"), ("inv", "Prefix"), ("inv", "ErrSurfaces"),
+               ("prop", "Retry"), ("inv", "NoSpurious")]
+DEV_SURVIVES = ["CounterInv", "Later"]
 
 
-def mc_cfg(path, variant, invs, props, calls=3, maxbuf=2, intr=1):
+def mc_cfg(path, variant, invs, props, calls=3, maxbuf=2, intr=1, dev=False):
     with open(path, "w") as f:
         f.write("SPECIFICATION Spec\nCONSTANTS\n  Variant = \"%s\"\n  MaxIntr = %d\n  KeepHist = FALSE\n  MaxCalls = %d\n"
-                "  MinBuf = 0\n  MaxBuf = %d\n  RawChoices = {FALSE, TRUE}\n  Emit = FALSE\n" % (variant, intr, calls, maxbuf))
+                "  MinBuf = 0\n  MaxBuf = %d\n  RawChoices = {FALSE, TRUE}\n  DevIgnoredWrite = %s\n  Emit = FALSE\n" % (
+                    variant, intr, calls, maxbuf, "TRUE" if dev else "FALSE"))
         if invs:
             f.write("INVARIANTS " + " ".join(invs) + "\n")
         if props:
@@ -52,7 +63,9 @@ def mc_cfg(path, variant, invs, props, calls=3, maxbuf=2, intr=1):
         f.write("CHECK_DEADLOCK FALSE\n")
 
 
-def region(marks, k):
+def region(marks, k, esc=()):
+    if any(a <= k < b for a, b in esc):
+        return "escaped-literal-string"
     base, body, xref, tail = marks
     if k < base:
         return "prev"
@@ -70,7 +83,7 @@ def signature(verdict, ref, rec):
     plan = rec.get("plan", {})
     sig = "C19:%s.%s.%s" % (verdict, ref.get("fmt", "?"), ref.get("mode", "?"))
     if plan.get("kind", "none") != "none":
-        sig += ".%s.%s" % (plan["kind"], region(ref["marks"], plan["k"]))
+        sig += ".%s.%s" % (plan["kind"], region(ref["marks"], plan["k"], ref.get("esc", ())))
     elif plan:
         sig += ".chunk" + ("+intr" if plan.get("intr") else "")
     return sig
@@ -111,7 +124,7 @@ def model(chk, tier, w):
     # the stated bound: writers of <= 5 calls with buffers <= 3 bytes x every sink schedule (quick: <= 4 calls)
     if quick:
         cfg = os.path.join(w, "bound.cfg")
-        mc_cfg(cfg, "asis", DECLARATIVE + ["CounterInv"], ["Retry", "RetrySink"], calls=4, maxbuf=3, intr=2)
+        mc_cfg(cfg, "asis", DECLARATIVE + ["CounterInv"], ["Accounted", "Retry", "RetrySink"], calls=4, maxbuf=3, intr=2)
     else:
         cfg = "MC_SaveSink_full.cfg"
     r2 = tlc("MC_SaveSink.tla", cfg, workers=workers, coverage=True, name="c19-bound", timeout=1500)
@@ -132,10 +145,26 @@ def model(chk, tier, w):
         if rm.violation not in invs + props:
             raise vlib.ToolError("vacuous model: mutant writer %s does not violate %s (got %s)" % (m, invs + props, rm.violation))
         caught[m] = rm.violation
+    # the deviation switch: with the result of `write` ignored on some path TLC must find a counter-example to
+    # each clause of the contract (quick: the contract itself and two consequences)
+    refuted = {}
+    todo = DEV_REFUTED[:2] + [("inv", "ErrSurfaces"), ("inv", "ChunkFree")] if quick else DEV_REFUTED
+    for kind, name in todo:
+        cfg = os.path.join(w, "dev_%s.cfg" % name)
+        mc_cfg(cfg, "asis", [name] if kind == "inv" else [], [name] if kind == "prop" else [], dev=True)
+        rd = tlc("MC_SaveSink.tla", cfg, workers=2, name="c19-dev-" + name, allow_violation=True)
+        if rd.violation != name:
+            raise vlib.ToolError("vacuous model: DevIgnoredWrite does not refute %s (got %s)" % (name, rd.violation))
+        refuted[name] = "%d states to the counter-example" % rd.distinct
+    if not quick:
+        cfg = os.path.join(w, "dev_survives.cfg")
+        mc_cfg(cfg, "asis", DEV_SURVIVES, [], dev=True)
+        chk.add_tlc(tlc("MC_SaveSink.tla", cfg, workers=4, name="c19-dev-survives"))
+    chk.extra["dev_ignored_write_refutes"] = refuted
     if not quick:
         # a different but correct counting discipline must satisfy the whole declarative layer
         cfg = os.path.join(w, "alt_count.cfg")
-        mc_cfg(cfg, "count_accepted", DECLARATIVE, ["Retry", "RetrySink"])
+        mc_cfg(cfg, "count_accepted", DECLARATIVE, ["Accounted", "Retry", "RetrySink"])
         chk.add_tlc(tlc("MC_SaveSink.tla", cfg, workers=4, name="c19-alt"))
     chk.extra["model_states"] = chk.states
     chk.extra["model_transitions"] = chk.transitions
@@ -227,17 +256,17 @@ def replay(chk, cases, w):
 
 
 # ------------------------------------------------------------------ (V) recorded runs judged by TLC
-def shard(tag, first, docs, size, combos, w):
+def shard(tag, first, docs, size, combos, strmax, w):
     tr = os.path.join(w, "trace-%s.ndjson" % tag)
     run_bin("c19", ["record", "--seed", vlib.seed(), "--first", first, "--docs", docs, "--size", size, "--combos", combos,
-                    "--out", tr])
+                    "--strmax", strmax, "--out", tr])
     r = tlc("Trace_SaveSink.tla", "Trace_SaveSink.cfg", workers=1, env={"TRACE": tr}, deque=True, timeout=2400,
             name="c19-trace-" + tag, xmx="6g")
-    return tag, first, docs, size, combos, tr, r
+    return tag, first, docs, size, combos, strmax, tr, r
 
 
 def absorb(chk, res, stats):
-    tag, first, docs, size, combos, tr, r = res
+    tag, first, docs, size, combos, strmax, tr, r = res
     chk.add_tlc(r)
     verdicts = {v["i"]: v["v"] for v in r.tagged("VERDICT")}
     tallies = r.tagged("TALLY")
@@ -264,6 +293,13 @@ def absorb(chk, res, stats):
                 stats["configs"] += 1
                 stats["bytes"] += rec["n"]
                 stats["fm"][rec["fmt"] + "/" + rec["mode"]] = stats["fm"].get(rec["fmt"] + "/" + rec["mode"], 0) + 1
+                # inputs: literal strings that take the escaping slow path, present in every configuration
+                esc = rec.get("esc", [])
+                stats["esc_strings"] += len(esc)
+                stats["esc_bytes"] += sum(b - a for a, b in esc)
+                if len(esc) < 3 or sum(b - a for a, b in esc) < 80 or max(b - a for a, b in esc) < 24:
+                    raise vlib.ToolError("vacuous document: configuration %s has too few escaped literal strings: %s" % (
+                        rec["cfg"], esc))
             elif ev == "skip":
                 stats["skipped"] += 1
                 stats["skip_why"].append(rec.get("why", ""))
@@ -275,8 +311,11 @@ def absorb(chk, res, stats):
                 p = rec["plan"]
                 if rec["phase"] == "offset":
                     stats["offset_runs"] += 1
-                cls = "fail" if p["kind"] != "none" else ("intr" if p["intr"] else "chunk")
+                cls = {"err": "fail", "ok0": "fail", "intr": "intr", "short": "short"}.get(p["kind"]) or \
+                    ("intr" if p["intr"] else "chunk")
                 stats["plans"][cls] = stats["plans"].get(cls, 0) + 1
+                if p["kind"] != "none" and any(a < p["k"] < b for a, b in ref.get("esc", ())):
+                    stats["in_esc"][p["kind"]] = stats["in_esc"].get(p["kind"], 0) + 1
                 stats["results"][rec["result"]] = stats["results"].get(rec["result"], 0) + 1
                 if rec["result"] == "err" and not rec["later"].get("eqref", True):
                     stats["later_not_identical"] += 1
@@ -293,10 +332,10 @@ def absorb(chk, res, stats):
                 if v == "ok-drift":
                     chk.extra["model_drift"] = chk.extra.get("model_drift", 0) + 1
                 continue
-            meta = {k: ref[k] for k in ("cfg", "doc", "fmt", "mode", "n", "marks")} if ref else {}
+            meta = {k: ref[k] for k in ("cfg", "doc", "fmt", "mode", "n", "marks", "esc")} if ref else {}
             det = {"verdict": v, "config": meta, "run": rec,
-                   "reproduce": "harness/target/release/c19 record --seed %d --first %s --docs 1 --size %s --combos %s --out F"
-                                % (vlib.seed(), (ref or {}).get("doc", first), size, combos)}
+                   "reproduce": "harness/target/release/c19 record --seed %d --first %s --docs 1 --size %s --combos %s "
+                                "--strmax %s --out F" % (vlib.seed(), (ref or {}).get("doc", first), size, combos, strmax)}
             if ev == "ref":
                 chk.violation("C19:%s.%s.%s" % (v, rec["fmt"], rec["mode"]), det)
             elif ev == "devfull":
@@ -327,10 +366,10 @@ def negative_control(chk, tr, w):
     W = ref["W"]
     j = len(W) // 2
     good_later = {"res": "ok", "load": "ok", "same": True, "valid": True}
-    fail = {"ev": "run", "cfg": ref["cfg"], "phase": "control", "skip": j, "tail": [[W[j], -2]], "ncalls": j + 1,
+    fail = {"ev": "run", "cfg": ref["cfg"], "phase": "control", "skip": j, "suf": 0, "tail": [[W[j], -2]], "ncalls": j + 1,
             "plan": {"chunk": 0, "intr": 0, "k": sum(W[:j]), "kind": "err", "sticky": False},
             "result": "err", "dlen": sum(W[:j]), "dpre": True, "later": dict(good_later), "zcalls": 0, "flushes": 0}
-    chunked = {"ev": "run", "cfg": ref["cfg"], "phase": "control", "skip": 0,
+    chunked = {"ev": "run", "cfg": ref["cfg"], "phase": "control", "skip": 0, "suf": 0,
                "tail": [[W[0], -1]] + [[x, x] for x in W], "ncalls": len(W) + 1,
                "plan": {"chunk": 0, "intr": 1, "k": -1, "kind": "none", "sticky": False},
                "result": "ok", "dlen": ref["n"], "dpre": True,
@@ -372,7 +411,7 @@ def run(tier):
     chk = Check("C19", META["level"], tier)
     chk.rule = ("one case = one save of a fresh clone of a generated document through the instrumented sink, or one TLC schedule "
                 "replayed on one configuration; per configuration (document x xref format x plain/incremental) the failure "
-                "offset k ranges over EVERY byte of the complete output x {Err, Ok(0)}; non-trivial = the sink misbehaved at "
+                "offset k ranges over EVERY byte of the complete output x {Err, Ok(0), Interrupted, short write}; non-trivial = the sink misbehaved at "
                 "least once (failure, short write or Interrupted); distinct by (configuration, failure offset, kind, chunking, "
                 "Interrupted period, stickiness)")
     chk.assumptions = [
@@ -388,18 +427,19 @@ def run(tier):
     cases = model(chk, tier, w)
     replay(chk, cases, w)
     # (V) shards: (first document, number of documents, stream size scale, random combinations per configuration)
+    # (tag, first document, documents, stream size scale, random combinations per configuration, longest escaped string)
     if tier == "quick":
-        shards = [("a", 0, 3, 40, 24), ("b", 3, 3, 40, 24)]
-        par = 2
+        shards = [("q%d" % i, i, 1, 40, 24, 120) for i in range(4)]
+        par = 4
     else:
-        shards = [("s%02d" % i, i * 10, 10, 40, 48) for i in range(40)] + \
-                 [("L%02d" % i, 400 + i * 5, 5, 400, 48) for i in range(16)]
-        par = 8
+        shards = [("s%03d" % i, i * 3, 3, 40, 48, 300) for i in range(64)] + \
+                 [("L%02d" % i, 400 + i * 2, 2, 400, 48, 300) for i in range(12)]
+        par = 10
     stats = {"configs": 0, "bytes": 0, "skipped": 0, "skip_why": [], "offset_runs": 0, "results": {}, "fm": {}, "devfull": 0,
-             "later_not_identical": 0, "tally": {}, "distinct": 0, "plans": {}}
+             "later_not_identical": 0, "tally": {}, "distinct": 0, "plans": {}, "esc_strings": 0, "esc_bytes": 0, "in_esc": {}}
     first_trace = None
     with concurrent.futures.ThreadPoolExecutor(max_workers=par) as ex:
-        futs = [ex.submit(shard, t, f, d, s, c, w) for (t, f, d, s, c) in shards]
+        futs = [ex.submit(shard, t, f, d, s, c, m, w) for (t, f, d, s, c, m) in shards]
         for fu in futs:
             res = fu.result()
             tr = absorb(chk, res, stats)
@@ -407,12 +447,12 @@ def run(tier):
                 first_trace = tr
                 negative_control(chk, tr, w)
                 with open(tr) as f:
-                    lines = [json.loads(x) for _, x in zip(range(400), f)]
+                    lines = [json.loads(x) for _, x in zip(range(3000), f)]
                 rf = dict(lines[0])
                 rf["W"] = rf["W"][:24] + ["... %d calls" % len(rf["W"])]
                 chk.sample({"reference": rf})
                 for x in lines:
-                    if x["ev"] == "run" and x["plan"]["k"] == rf["n"] // 3:
+                    if x["ev"] == "run" and x["plan"]["k"] == (rf["esc"][0][0] + rf["esc"][0][1]) // 2:
                         chk.sample({"run": x})
                 for x in lines[::-1]:
                     if x["ev"] == "run" and x["plan"]["kind"] == "none" and x["plan"]["chunk"] == 7:
@@ -427,16 +467,21 @@ def run(tier):
             stats["skipped"], total_cfg, stats["skip_why"][:3]))
     if len(stats["fm"]) != 4:
         raise vlib.ToolError("vacuous: configurations covered: %s" % stats["fm"])
-    if stats["offset_runs"] != 2 * stats["bytes"]:
-        raise vlib.ToolError("failure offsets not exhaustive: %d runs for %d bytes x 2 kinds" % (stats["offset_runs"], stats["bytes"]))
+    if stats["offset_runs"] != 4 * stats["bytes"]:
+        raise vlib.ToolError("failure offsets not exhaustive: %d runs for %d bytes x 4 kinds" % (stats["offset_runs"], stats["bytes"]))
+    ie = stats["in_esc"]
+    if not all(ie.get(k, 0) for k in ("err", "ok0", "intr", "short")):
+        raise vlib.ToolError("vacuous: no sink misbehaviour strictly inside an escaped literal string for some kind: %s" % ie)
     t = stats["tally"]
     pl = stats["plans"]
-    if not (pl.get("fail", 0) and pl.get("chunk", 0) and pl.get("intr", 0)):
+    if not (pl.get("fail", 0) and pl.get("chunk", 0) and pl.get("intr", 0) and pl.get("short", 0)):
         raise vlib.ToolError("vacuous trace set: sink plans exercised: %s" % pl)
     chk.extra.update({
         "distinct_nontrivial": stats["distinct"] + chk.extra.get("replayed_schedules", 0),
         "configurations": stats["configs"], "configurations_by_kind": stats["fm"], "configurations_skipped": stats["skipped"],
         "output_bytes_enumerated": stats["bytes"], "per_offset_fault_runs": stats["offset_runs"],
+        "escaped_literal_strings": stats["esc_strings"], "escaped_literal_string_bytes": stats["esc_bytes"],
+        "sink_misbehaviour_inside_escaped_strings": ie,
         "run_results": stats["results"], "sink_plans": pl, "trace_verdict_tally": t, "save_to_full_device_runs": stats["devfull"],
         "later_outputs_not_byte_identical_to_reference": stats["later_not_identical"],
         "traces_validated_against_impl": chk.traces,
